@@ -20,3 +20,33 @@ Fixpoint sort_by (l : list A) : list A :=
   | x :: t => insert_by x (sort_by t)
   end.
 End Sort.
+
+(** The same stable insertion sort for an arbitrary boolean "less or equal" (used with
+    string keys). *)
+Section SortLeb.
+Context {A : Type} (leb : A -> A -> bool).
+Fixpoint insert_leb (x : A) (l : list A) : list A :=
+  match l with
+  | [] => [x]
+  | y :: t => if leb x y then x :: y :: t else y :: insert_leb x t
+  end.
+Fixpoint sort_leb (l : list A) : list A :=
+  match l with
+  | [] => []
+  | x :: t => insert_leb x (sort_leb t)
+  end.
+End SortLeb.
+
+(** lexicographic order on strings (lists of code points): Python's str comparison *)
+Fixpoint str_leb (a b : list Z) : bool :=
+  match a, b with
+  | [], _ => true
+  | _ :: _, [] => false
+  | x :: a', y :: b' => if x <? y then true else if y <? x then false else str_leb a' b'
+  end.
+Fixpoint str_eqb (a b : list Z) : bool :=
+  match a, b with
+  | [], [] => true
+  | x :: a', y :: b' => (x =? y) && str_eqb a' b'
+  | _, _ => false
+  end.
